@@ -1,0 +1,13 @@
+//go:build verif
+
+package keeper
+
+// VerifRefundHook, when set, observes the gas refund computation of every state transition
+// (verification instrumentation, only compiled with the `verif` build tag).
+var VerifRefundHook func(gasUsedBeforeRefund, refundCounter, refundApplied, gasRemaining uint64)
+
+func verifObserveRefund(gasUsedBeforeRefund, refundCounter, refundApplied, gasRemaining uint64) {
+	if VerifRefundHook != nil {
+		VerifRefundHook(gasUsedBeforeRefund, refundCounter, refundApplied, gasRemaining)
+	}
+}
